@@ -187,6 +187,13 @@ def run_unit(name, features=None, variant=None, seed=0, canary=True, threads=8):
             cfut = _POOL.submit(verus, cpath, seed, threads, [], 1)
         res = verus(path, seed, threads, extra)
         f0, o0 = classify(res, linemap)
+        if o0 and all(o.get("why") == "resource limit" for o in o0):
+            # a resource-limit give-up (sometimes a side effect of ANOTHER function's failure in the same solver session):
+            # one retry with three times the limit before the function is given up as undecided
+            res2 = verus(path, seed, threads, list(extra) + ["--rlimit", "30"])
+            f2, o2 = classify(res2, linemap)
+            if len(o2) < len(o0):
+                res, f0, o0 = res2, f2, o2
         # compile-level problems inside an EXTRACTED function: stub that function (assumed contract) and retry, so
         # that properties which do not depend on it are still decided
         new = {}
